@@ -244,9 +244,37 @@ def c13_plan(run, replay=None):
          "collisions are searched within the enumerated domain only", "TLC, Json module"], exhaustive=True)
 
 
+# --------------------------------------------------------------------------------------------- session
+def c06_plan(run, replay=None):
+    q = run.tier == "quick"
+    run.build_harness()
+    if replay:
+        replay_cases(run, replay, "cases.ndjson")
+    else:
+        run.tlc("ParseSessionMC", "C06_quick.cfg" if q else "C06_thorough.cfg", "design", workers=4, cases_out="cases.ndjson", timeout=1500)
+    s = run.harness("session", ["-in", "cases.ndjson", "-out", "obs.ndjson", "-procs", 2 if q else 6], timeout=3000)
+    run.load_inputs("obs.ndjson.inputs")
+    run.validate_trace("ParseSessionObs", "obs.ndjson", s["cases"], timeout=3000)
+    only(run, ["C06."])
+    if not replay:
+        run.floor("sessions_with_2plus_calls", run.counters.get("sessions_with_2plus_calls", 0), 4000)
+        run.floor("determinism_parses", run.counters.get("determinism_parses", 0), 400)
+    run.counters["distinct_nontrivial"] = run.counters.get("sessions_with_2plus_calls", 0)
+    return run.finish(
+        "sessions = sequences of parse calls (input from a pool of 6 realtime and 2 static inputs, each with >= 3 of "
+        "everything that is built from a Go map; shared object from 5 kinds incl. nil Extension, both NYCT extensions, "
+        "three zones); every sequence of <= 2 calls and every sequence of 3 (thorough: 4) calls on one object; plus "
+        "8 in-process and 2 (thorough: 6) cross-process parses per input x object, compared by digest of the full ordered result",
+        ["results are compared through a canonical dump of every field reachable from the result (order kept)",
+         "map-order nondeterminism is detected probabilistically: with >= 3 map-built items and 10+ parses the chance "
+         "that a random order never differs is < 1e-4 per input",
+         "TLC, Json module"], exhaustive=True)
+
+
 ZONES = "nil,UTC,America/New_York,Asia/Kolkata,fixed+0545,Pacific/Auckland,fixed-0330"
 
 PLANS = {
+    "C06": c06_plan,
     "C13": c13_plan,
     "C17": c17_plan,
     "C16": c16_plan,
